@@ -118,6 +118,21 @@ class PropScenario(explore.Scenario):
     def build(self):
         w = W()
         w.cw = fakes.ClientWorld()
+        w.ki = None
+        if self.params.get('shadow'):
+            # the process also knows other definitions under the same three
+            # interface names (an older view of the service, learnt from a
+            # peer or declared for a proxy): same property names, other
+            # types, read-only, no notification.  The exported classes list
+            # their own interface objects
+            from txdbus import interface as I
+            w.ki = fakes.KnownInterfaces().__enter__()
+            for P_ in (PA, PB, PC):
+                I.DBusInterface(P_, *[
+                    I.Property(k[1], 'u' if DECL[k][0] == 's' else 's',
+                               readable=True, writeable=False,
+                               emitsOnChange=False)
+                    for k in DECL if k[0] == P_])
         Base, Derived = make_family()
         # 'c' is a second instance of the base class whose properties are
         # read (locally) before anything was assigned to them and which then
@@ -151,6 +166,8 @@ class PropScenario(explore.Scenario):
 
     def close(self, w):
         w.cw.close()
+        if w.ki is not None:
+            w.ki.__exit__()
 
     def enabled(self, w):
         evs = []
@@ -490,6 +507,11 @@ def run(ctx):
     explore.explore(ctx, PropScenario, {'init_order': ['d', 'b']},
                     max_depth=1 if ctx.quick else 2,
                     label='derived first')
+    explore.explore(ctx, PropScenario, {'init_order': ['b', 'd'],
+                                        'shadow': True},
+                    max_depth=1 if ctx.quick else 2,
+                    label='other definitions known under the same interface '
+                          'names')
     ctx.bounds = {'declarations': len(DECL), 'values_per_property': 2}
 
 
